@@ -19,7 +19,7 @@ WORK = os.path.join(VERIF, "work")
 EVIDENCE = os.path.join(VERIF, "evidence")
 REPLAYS = os.path.join(VERIF, "replays")
 TARGET_BIN = os.path.join(HARNESS, "target", "debug")
-REPO = "/repo"
+REPO = os.environ.get("VERIF_REPO", "/repo")
 
 
 class ToolError(Exception):
